@@ -27,6 +27,7 @@ type Variant struct {
 	Std1, Tok1, Std2, Tok2 sdkmath.Int
 	Amts                   []sdkmath.Int // trade / liquidity amounts
 	Params                 bool          // include fee parameter changes (C01)
+	SubSecond              bool          // block time with a non-zero sub-second part
 }
 
 type poolObs struct {
@@ -34,19 +35,19 @@ type poolObs struct {
 }
 
 type opData struct {
-	kind            string
-	who, rcpt       string
-	in, out         string // denoms
-	amt             sdkmath.Int
-	buy             bool
-	bound           string // "loose","exact","miss1"
-	past            bool
-	pool            string // counterparty denom
-	side            string
-	all, allBut1    bool
-	fee             sdkmath.LegacyDec
-	which           string
-	missWhich       string
+	kind         string
+	who, rcpt    string
+	in, out      string // denoms
+	amt          sdkmath.Int
+	buy          bool
+	bound        string // "loose","exact","miss1"
+	past         bool
+	pool         string // counterparty denom
+	side         string
+	all, allBut1 bool
+	fee          sdkmath.LegacyDec
+	which        string
+	missWhich    string
 }
 
 // Driver implements mc.Driver.
@@ -70,8 +71,18 @@ func must(out mc.Outcome, what string) {
 	}
 }
 
+// deadline returns the two deadlines (whole unix seconds) that straddle the block time exactly: the smallest
+// one that has not passed (its instant is >= the block time) and the largest one that has (its instant is
+// before the block time, possibly by less than a second when the block time has a sub-second part).
 func deadline(s *mc.State, past bool) int64 {
-	t := s.Ctx.BlockTime().Unix()
+	bt := s.Ctx.BlockTime()
+	t := bt.Unix()
+	if bt.Nanosecond() > 0 {
+		if past {
+			return t
+		}
+		return t + 1
+	}
 	if past {
 		return t - 1
 	}
@@ -80,6 +91,10 @@ func deadline(s *mc.State, past bool) int64 {
 
 func (d *Driver) Init(e *mc.Env) *mc.State {
 	s := &mc.State{Ctx: mc.Branch(e.Root)}
+	if d.V.SubSecond {
+		// real block times carry nanoseconds: this variant runs at a block time half-way into a second
+		s.Ctx, _ = e.NextBlock(s.Ctx, 1500*time.Millisecond)
+	}
 	dl := deadline(s, false)
 	must(s.Deliver(e, "fx-pool1", &cstypes.MsgAddLiquidity{MaxToken: mc.CI("btc", d.V.Tok1), ExactStandardAmt: d.V.Std1,
 		MinLiquidity: sdkmath.OneInt(), Deadline: dl, Sender: mc.Addr("A").String()}), "pool1")
@@ -134,6 +149,9 @@ func (d *Driver) Enabled(e *mc.Env, s *mc.State) []mc.Op {
 		}
 		add("donate(btc)", opData{kind: "donate", who: "C", pool: "btc", side: "btc", amt: d.V.Amts[1]})
 		add("donate(stake)", opData{kind: "donate", who: "C", pool: "btc", side: std, amt: d.V.Amts[1]})
+		// a denom foreign to the pool: its escrow can receive it, but it must never count as a reserve
+		add("donate(eth->btc-pool)", opData{kind: "donate", who: "C", pool: "btc", side: "eth", amt: d.V.Amts[0]})
+		add("uniadd(C,btc,eth,a1)", opData{kind: "uniadd", who: "C", pool: "btc", side: "eth", amt: d.V.Amts[1], bound: "loose"})
 		if d.V.Params {
 			add("fee(1e-18)", opData{kind: "param", which: "fee", fee: sdkmath.LegacySmallestDec()})
 			add("fee(0.5)", opData{kind: "param", which: "fee", fee: sdkmath.LegacyNewDecWithPrec(5, 1)})
@@ -396,7 +414,7 @@ func (d *Driver) apply(e *mc.Env, s *mc.State, op mc.Op) []mc.Finding {
 		return fs
 	}
 	if od.past {
-		fs = append(fs, mc.F("C02/deadline-ignored/"+mt, "%s succeeded although its deadline (%d) is before the block time %d", op.Name, deadline(s, true), s.Ctx.BlockTime().Unix()))
+		fs = append(fs, mc.F("C02/deadline-ignored/"+mt, "%s succeeded although its deadline (unix second %d) is before the block time %s", op.Name, deadline(s, true), s.Ctx.BlockTime().Format(time.RFC3339Nano)))
 	}
 	// the user's bounds, checked directly on what moved: at most the stated maxima, at least the stated minima
 	fs = append(fs, d.boundsRespected(e, s, od, mt, got, b1, b2)...)
